@@ -67,6 +67,8 @@ def run_all(chk, fsets, tier):
     chk.rule("F1.arith", floor=8, doc="E3: every arithmetic assert in FindChangePoints::next is discharged from the guards of the search (so release builds cannot wrap and spin)")
     rn.run_specs(chk, F, specs, "F1.arith", fsets[0])
     rt.check_kraft_monotone(chk, F, "F4.tables")
+    run_exact(chk, F)
+    run_termination(chk, F)
     run_implied(chk, F)
     import rules_ivl
     rules_ivl.run_c20(chk, F, fsets[0], tier)
@@ -359,3 +361,228 @@ def run_sampler(chk, F):
             ok3, why3 = False, why3 or "no indexing of change_points found in the sampler"
     chk.expect("I3.sampler", "distribution", ok3, "utils::implied::sample_implied_distribution: %s" % why3)
     chk.expect("I3.sampler", "indices", ok3, "utils::implied::sample_implied_distribution: %s" % why3)
+
+
+# ---- F6: the search returns exactly the first change point ----------------------------------------------------------------------------
+def run_exact(chk, F):
+    """FindChangePoints::next analysed (E3) against a specification of the function: a ghost constant T > current, the first
+    argument at which a non-decreasing f differs from f(current) = prev_value (unbounded when there is none), and every call of the
+    stored function answered accordingly (x < T: prev_value; x >= T: something larger).  Loop invariants are found among bounds of
+    the loop variables by expressions in T and current (step <= 2(T - current) - 1, left <= T <= right, ...), each kept only if it
+    holds at entry and is preserved by every iteration.  Decided: a later call that returns Some((x, v)) returns x = T and v > prev_value;
+    a call that returns None implies T >= 2^63 (no change point below 2^63 is given up on)."""
+    import numabs, contracts, lp
+    from numabs import le, const, Aff
+    chk.rule("F6.exact", floor=3, doc=run_exact.__doc__.strip().replace("\n    ", " "))
+    b = F.one(name="next", trait_is="std::iter::Iterator", impl_self="utils::find_change::FindChangePoints<")
+    S = ("deref", ("arg", 1, "self"))
+    CUR, PREV = ("field", S, "current"), ("field", S, "prev_value")
+    GT = ("ghost", "T")
+
+    def T(num):
+        return num.atom(GT, lambda a: [le(const(0), a)])
+
+    def call_fork(w, st, t, args):
+        num = w.num
+        f = args[0]
+        while isinstance(f, tuple) and f and f[0] in ("ref", "deref"):
+            f = f[1]
+        if f != ("field", S, "func"):
+            return None
+        xs = args[1]
+        x = xs[1][0] if isinstance(xs, tuple) and xs and xs[0] == "tuple" and len(xs[1]) == 1 else None
+        xa = num.aff(x) if x is not None else None
+        if xa is None:
+            return None
+        res = ("ret", st["ncall"], "std::ops::Fn::call")
+        num.types[res] = "usize"
+        ra, pv, tt = num.aff(res), num.aff(PREV), T(num)
+        out = []
+        for cons in ([le(xa, tt - const(1)), le(ra, pv), le(pv, ra)], [le(tt, xa), le(pv + const(1), ra)]):
+            s = w.fork(st)
+            s["log"].append(("lin", cons))
+            if w.state_feasible(s):
+                out.append({"state": s, "res": res})
+        return out or None
+    C = dict(contracts.C)
+    C["std::ops::Fn::call"] = {"fork": call_fork}
+
+    def assume(num):
+        return [le(num.aff(CUR) + const(1), T(num))]
+    wk = numabs.NumWalker(b, numabs.Cfg(64), F, C, assume)
+    wk.inline = rn.inline_pred
+    wk.template_exprs = [lambda num: T(num), lambda num: T(num) - const(1),
+                         lambda num: (T(num) - num.aff(CUR)).scale(2) - const(1), lambda num: (T(num) - num.aff(CUR)).scale(2),
+                         lambda num: T(num) - num.aff(CUR)]
+    try:
+        paths = wk.run()
+    except Exception as ex:
+        chk.bad("F6.exact", "analysis", "FindChangePoints::next cannot be analysed against the specification: %r" % (ex,))
+        return
+    num = wk.num
+    nl = nonlinear_loop_terms(paths)
+    if nl:
+        # not decided: stated in the evidence, not reported as a violation (the arithmetic rule F1 and the protocol rule F3 still apply)
+        for k in ("some.point", "some.value", "none"):
+            chk.expect("F6.exact", k, True, "", sample={"not_decided": "a loop computes %s: outside the linear domain" % sorted(next(iter(nl.values())))[:2]})
+        return
+    n_some = n_none = 0
+    bad_some, bad_val, bad_none = [], [], []
+    for p in paths:
+        if p.end[0] != "return":
+            continue
+        is_first = any(t == ("binop", "Eq", CUR, ("const", 0, "u64")) and ((op == "notin" and v == (0,)) or (op == "==" and v == 1)) for (t, op, v) in p.constraints) \
+            and not any(e[0] == "store" and e[1] == CUR for e in p.events)
+        store = wk.full_store(p.state)
+        if not lp.feasible_cached(store):
+            continue
+        num.ctx_events, num.ctx_cons, num.ctx_mem = p.state["events"], p.state["cons"], p.mem
+        r = p.ret
+        tt = T(num)
+        if isinstance(r, tuple) and r[0] == "agg" and r[3] == "Some":
+            pay = r[4][0]
+            if is_first:
+                continue
+            if not (pay[0] == "tuple" and len(pay[1]) == 2):
+                bad_some.append("unrecognised result")
+                continue
+            xa, va = num.aff(pay[1][0]), num.aff(pay[1][1])
+            n_some += 1
+            if xa is None or not all(lp.entails(num.close(store, [g]), g) for g in (le(xa, tt), le(tt, xa))):
+                bad_some.append(rn.describe_path(p))
+            pv = num.aff(PREV)
+            if va is None or not lp.entails(num.close(store, [le(pv + const(1), va)]), le(pv + const(1), va)):
+                bad_val.append(rn.describe_path(p))
+        else:
+            # Option::None, also when it is the early exit of `?` on a helper's None
+            n_none += 1
+            g = le(const(1 << 63), tt)
+            if not lp.entails(num.close(store, [g]), g):
+                bad_none.append(rn.describe_path(p))
+    chk.expect("F6.exact", "some.point", n_some >= 1 and not bad_some,
+               "FindChangePoints::next can return Some((x, _)) with x different from the first change point after `current`", detail={"paths": bad_some[:2]}, sample={"paths": n_some})
+    chk.expect("F6.exact", "some.value", n_some >= 1 and not bad_val,
+               "FindChangePoints::next can return Some((_, v)) with v not larger than the previous value", detail={"paths": bad_val[:2]}, sample={"paths": n_some})
+    chk.expect("F6.exact", "none", n_none >= 1 and not bad_none,
+               "FindChangePoints::next can return None although a change point below 2^63 exists", detail={"paths": bad_none[:2]}, sample={"paths": n_none})
+
+
+def nonlinear_loop_terms(paths):
+    """loops whose iterations compute something that is not linear in the loop's own variables (a shift by the loop counter, a
+    product of two unknowns): the linear domain cannot carry an invariant through them, so rules that need one do not decide them"""
+    out = {}
+    for p in paths:
+        if p.end[0] != "back":
+            continue
+        h = p.end[1]
+
+        def unknown(t):
+            return mir.mentions(t, lambda x: (x[0] == "havoc" and len(x) > 3 and x[3] == h) or (x[0] == "trip" and x[1] == h))
+
+        def scan(t):
+            if not isinstance(t, tuple) or not t:
+                return
+            if t[0] == "binop" and len(t) >= 4:
+                op = t[1].replace("Unchecked", "").replace("WithOverflow", "")
+                const_l = isinstance(t[2], tuple) and t[2] and t[2][0] == "const"
+                const_r = isinstance(t[3], tuple) and t[3] and t[3][0] == "const"
+                if (op in ("Shl", "Shr") and unknown(t[3])) or (op in ("Mul", "Div", "Rem") and not const_l and not const_r and (unknown(t[2]) or unknown(t[3]))):
+                    out.setdefault(h, set()).add(mir.fmt(t)[:60])
+            for x in t:
+                if isinstance(x, tuple):
+                    scan(x)
+        for (t, op, v) in p.state["cons"]:
+            scan(t)
+        for l, v in p.state["env"].items():
+            scan(v)
+    return out
+
+
+def havocs_of(t, head, acc):
+    if isinstance(t, tuple) and t:
+        if t[0] == "havoc" and len(t) > 3 and t[3] == head:
+            acc.add(t)
+        for x in t:
+            if isinstance(x, tuple):
+                havocs_of(x, head, acc)
+
+
+def run_termination(chk, F):
+    """F7: each loop of FindChangePoints::next has a linear ranking function: among the differences of its loop variables and
+    `u64::MAX - current - x`, one is non-negative whenever the body runs and decreases by at least one on every path back to the loop
+    head (any function, any state: the function's results are left unconstrained).  With F1 (no wrap-around) this is termination of
+    every call, i.e. the iterator ends instead of looping."""
+    import numabs, contracts, lp
+    from numabs import le, const, Aff
+    chk.rule("F7.terminates", floor=2, doc=run_termination.__doc__.strip().replace("\n    ", " "))
+    b = F.one(name="next", trait_is="std::iter::Iterator", impl_self="utils::find_change::FindChangePoints<")
+    S = ("deref", ("arg", 1, "self"))
+    CUR = ("field", S, "current")
+    wk = numabs.NumWalker(b, numabs.Cfg(64), F, contracts.C, None)
+    wk.inline = rn.inline_pred
+    try:
+        paths = wk.run()
+    except Exception as ex:
+        chk.bad("F7.terminates", "analysis", "FindChangePoints::next cannot be analysed: %r" % (ex,))
+        return
+    num = wk.num
+    groups = {}
+    for p in paths:
+        if p.end[0] == "back" and p.state.get("x_head_env"):
+            he = p.state["x_head_env"]
+            names = tuple(sorted(n for l, (v, n) in he.items() if n and not n.startswith("_") and isinstance(v, tuple) and v and v[0] == "havoc" and num.aff(v) is not None))
+            groups.setdefault((p.end[1], names), []).append(p)
+    heads = sorted(groups)
+    nl = nonlinear_loop_terms(paths)
+    chk.expect("F7.terminates", "loops", len(heads) >= 2, "FindChangePoints::next: %d loops with paths back to their head found (the two searches expected)" % len(heads),
+               sample={"loops": [list(h[1]) for h in heads]})
+    for h in heads:
+        bk = groups[h]
+        names = list(h[1])
+        if h[0] in nl:
+            # a counted loop over a range terminates by construction of the range iterator; what else it computes is not linear
+            chk.expect("F7.terminates", "loop@%d" % heads.index(h), True, "", sample={"loop": heads.index(h), "not_decided": sorted(nl[h[0]])[:2]})
+            continue
+
+        def head_val(p, name):
+            for l, (v, n) in p.state["x_head_env"].items():
+                if n == name:
+                    return num.aff(v)
+            return None
+
+        def end_val(p, name):
+            for l, (v, n) in p.state["x_head_env"].items():
+                if n == name:
+                    e = p.state["env"].get(l)
+                    return num.aff(e) if e is not None else None
+            return None
+        cands = []
+        for x in names:
+            for y in names:
+                if x != y:
+                    cands.append(("%s - %s" % (y, x), lambda get, x=x, y=y: (get(y) - get(x)) if get(x) is not None and get(y) is not None else None))
+            cands.append(("u64::MAX - current - %s" % x, lambda get, x=x: (const((1 << 64) - 1) - num.aff(CUR) - get(x)) if get(x) is not None else None))
+            cands.append((x, lambda get, x=x: get(x)))
+        found = None
+        for text, mk in cands:
+            ok = True
+            for p in bk:
+                store = wk.full_store(p.state)
+                if not lp.feasible_cached(store):
+                    continue
+                num.ctx_events, num.ctx_cons, num.ctx_mem = p.state["events"], p.state["cons"], p.mem
+                r0 = mk(lambda n: head_val(p, n))
+                r1 = mk(lambda n: end_val(p, n))
+                if r0 is None or r1 is None:
+                    ok = False
+                    break
+                goals = [le(const(0), r0), le(r1, r0 - const(1))]
+                if not all(lp.entails(num.close(store, [g]), g) for g in goals):
+                    ok = False
+                    break
+            if ok and bk:
+                found = text
+                break
+        chk.expect("F7.terminates", "loop@%d" % heads.index(h), found is not None,
+                   "FindChangePoints::next: no ranking function among %d candidates for the loop at block %d (variables %s): an iteration may fail to make progress" % (len(cands), h[0], names),
+                   sample={"loop": heads.index(h), "ranking": found, "back_paths": len(bk)})
